@@ -204,14 +204,13 @@ class ControllerApplication:
                 # TODO: are there any state variables we have to care about?
                 self._device_address = j1939.ParameterGroupNumber.Address.NULL
                 # TODO: maybe we should call an overloadable function here
-                if self._name.arbitrary_address_capable == False:
-                    # bad luck
+                if (self._name.arbitrary_address_capable == False) or (self._device_address_announced >= 253):
+                    # bad luck (for an arbitrary address capable CA: no address is left above the one we lost)
                     logger.error("After releasing our address we are configured to stop operation (CANNOT CLAIM)")
                     self._device_address_state = ControllerApplication.State.CANNOT_CLAIM
                     self._device_address = None
                     self._send_address_claimed(j1939.ParameterGroupNumber.Address.NULL) # send CANNOT CLAIM
                 else:
-                    # TODO: we should check the address range here
                     self._device_address_announced += 1
                     logger.info("Try the next address '%d'", self._device_address_announced)
                     # TODO: it's not possible to set the VETO-Timeout from here
